@@ -137,7 +137,7 @@ def main():
                                capture_output=True, text=True)
             nv = r.stdout.count('VIOLATION')
             status = 'caught' if r.returncode == 1 and nv else f'MISSED(rc={r.returncode})'
-            first = next((ln for ln in r.stdout.splitlines() if ln.startswith('VIOLATION')), r.stderr[-300:])
+            first = next((ln for ln in r.stdout.splitlines() if ln.startswith('# ')), r.stderr[-300:])
             results.append((mid, prop, status, tests + ' ' + first[-120:]))
             print(results[-1], flush=True)
             shutil.rmtree(tree)
